@@ -705,3 +705,136 @@ impl DF {
 /// a wrapper whose LAST type argument may be unsized
 #[derive(Debug, PartialEq)]
 pub struct Tagged<K, V: ?Sized>(pub K, pub V);
+
+// ---------------------------------------------------------------------------------------------
+// W: the field type of the life-cycle family (spec/DxLife.tla).  W(val, tag): a number modulo 6
+// with every trait a derived type can forward to.  Comparisons and hashing look at `val` only
+// (hashes like V: (100, val)); `tag` is the position the driver put the value in (9 after
+// Default::default(), 7 after a write through deref_mut).  Clone, Default and the operators log
+// their calls; results of operators keep the tag of the LEFT operand.
+// ---------------------------------------------------------------------------------------------
+#[derive(Debug)]
+pub struct W(pub u8, pub u8);
+impl Clone for W {
+    fn clone(&self) -> Self {
+        log(format!("clone:{}:{}", self.1, self.0));
+        W(self.0, self.1)
+    }
+    fn clone_from(&mut self, source: &Self) {
+        log(format!("clone_from:{}:{}:{}:{}", self.1, self.0, source.1, source.0));
+        self.0 = source.0;
+        self.1 = source.1;
+    }
+}
+impl Default for W {
+    fn default() -> Self {
+        log("default".to_string());
+        W(0, 9)
+    }
+}
+impl PartialEq for W {
+    fn eq(&self, o: &Self) -> bool {
+        self.0 == o.0
+    }
+}
+impl Eq for W {}
+impl PartialOrd for W {
+    fn partial_cmp(&self, o: &Self) -> Option<Ordering> {
+        Some(self.0.cmp(&o.0))
+    }
+}
+impl Ord for W {
+    fn cmp(&self, o: &Self) -> Ordering {
+        self.0.cmp(&o.0)
+    }
+}
+impl Hash for W {
+    fn hash<H: Hasher>(&self, state: &mut H) {
+        state.write_u8(100);
+        state.write_u8(self.0);
+    }
+}
+pub fn w_op(op: &str, a: u8, b: u8) -> u8 {
+    match op {
+        "add" => (a + b) % 6,
+        "sub" => (a + 6 - b) % 6,
+        _ => 255,
+    }
+}
+macro_rules! w_binop {
+    ($Tr:ident, $f:ident, $TrA:ident, $fa:ident, $name:expr) => {
+        impl std::ops::$Tr<W> for W {
+            type Output = W;
+            fn $f(self, r: W) -> W {
+                log(format!("{}:vv:{}:{}:{}:{}", $name, self.1, self.0, r.1, r.0));
+                W(w_op($name, self.0, r.0), self.1)
+            }
+        }
+        impl<'a> std::ops::$Tr<&'a W> for W {
+            type Output = W;
+            fn $f(self, r: &'a W) -> W {
+                log(format!("{}:vr:{}:{}:{}:{}", $name, self.1, self.0, r.1, r.0));
+                W(w_op($name, self.0, r.0), self.1)
+            }
+        }
+        impl<'a> std::ops::$Tr<W> for &'a W {
+            type Output = W;
+            fn $f(self, r: W) -> W {
+                log(format!("{}:rv:{}:{}:{}:{}", $name, self.1, self.0, r.1, r.0));
+                W(w_op($name, self.0, r.0), self.1)
+            }
+        }
+        impl<'a, 'b> std::ops::$Tr<&'b W> for &'a W {
+            type Output = W;
+            fn $f(self, r: &'b W) -> W {
+                log(format!("{}:rr:{}:{}:{}:{}", $name, self.1, self.0, r.1, r.0));
+                W(w_op($name, self.0, r.0), self.1)
+            }
+        }
+        impl std::ops::$TrA<W> for W {
+            fn $fa(&mut self, r: W) {
+                log(format!("{}_assign:v:{}:{}:{}:{}", $name, self.1, self.0, r.1, r.0));
+                self.0 = w_op($name, self.0, r.0);
+            }
+        }
+        impl<'a> std::ops::$TrA<&'a W> for W {
+            fn $fa(&mut self, r: &'a W) {
+                log(format!("{}_assign:r:{}:{}:{}:{}", $name, self.1, self.0, r.1, r.0));
+                self.0 = w_op($name, self.0, r.0);
+            }
+        }
+    };
+}
+w_binop!(Add, add, AddAssign, add_assign, "add");
+w_binop!(Sub, sub, SubAssign, sub_assign, "sub");
+impl std::ops::Neg for W {
+    type Output = W;
+    fn neg(self) -> W {
+        log(format!("neg:v:{}:{}", self.1, self.0));
+        W((6 - self.0) % 6, self.1)
+    }
+}
+impl<'a> std::ops::Neg for &'a W {
+    type Output = W;
+    fn neg(self) -> W {
+        log(format!("neg:r:{}:{}", self.1, self.0));
+        W((6 - self.0) % 6, self.1)
+    }
+}
+// decoys: inherent methods named like the trait methods (method-call syntax in generated code would pick these)
+impl W {
+    pub fn clone(&self) -> Self { log("decoy:clone".to_string()); W(99, 99) }
+    pub fn clone_from(&mut self, _s: &Self) { log("decoy:clone_from".to_string()); self.1 = 98; }
+    pub fn eq(&self, _o: &Self) -> bool { log("decoy:eq".to_string()); false }
+    pub fn cmp(&self, _o: &Self) -> Ordering { log("decoy:cmp".to_string()); Ordering::Greater }
+    pub fn partial_cmp(&self, _o: &Self) -> Option<Ordering> { log("decoy:partial_cmp".to_string()); None }
+    pub fn hash<H>(&self, _s: &mut H) { log("decoy:hash".to_string()); }
+    pub fn add(self, _r: W) -> W { log("decoy:add".to_string()); W(97, 97) }
+    pub fn sub(self, _r: W) -> W { log("decoy:sub".to_string()); W(97, 97) }
+    pub fn neg(self) -> W { log("decoy:neg".to_string()); W(97, 97) }
+    pub fn default() -> W { log("decoy:default".to_string()); W(96, 96) }
+}
+/// projection of a W for the life-cycle traces: "val:tag"
+pub fn w_proj(x: &W) -> String {
+    format!("[{},{}]", x.0, x.1)
+}
